@@ -43,6 +43,7 @@ type FnVal struct {
 	Bindings []Val
 	Special  string // "writeFn"
 	Data     []Val
+	Base     ssa.Value // elemptr: the SSA slice value the element belongs to
 }
 
 // State is the mutable program state at a program point.
@@ -174,7 +175,17 @@ func (fc *FnCtx) mergeStates(conds []string, sts []State, tag string) State {
 	}
 	for k := range gk {
 		k := k
-		out.ghosts[k] = fc.mergeTerm(conds, func(i int) string { return sts[i].ghosts[k] }, fc.ghostSort(k), "G_"+tag)
+		out.ghosts[k] = fc.mergeTerm(conds, func(i int) string {
+			if v, ok := sts[i].ghosts[k]; ok {
+				return v
+			}
+			init := "ghost0_" + k
+			if !fc.B.declared["ghost:"+k] {
+				fc.B.declared["ghost:"+k] = true
+				fc.B.Raw(fmt.Sprintf("(declare-const %s %s)", init, fc.ghostSort(k)))
+			}
+			return init
+		}, fc.ghostSort(k), "G_"+tag)
 	}
 	ck := map[string]bool{}
 	for _, s := range sts {
@@ -253,6 +264,8 @@ func (fc *FnCtx) specSort(t string) string {
 		return "Ctx"
 	case "error":
 		return "Int"
+	case "iface":
+		return "Iface"
 	}
 	if strings.HasPrefix(t, "[]") {
 		return "(Slice " + fc.specSort(t[2:]) + ")"
